@@ -39,7 +39,7 @@ def base_cases(thorough):
     for c in gen:
       if c.family in families.FINDING_FAMILIES: continue      # recorded under the property of their own check (findings F44, F46)
       by.setdefault(c.family, []).append(c)
-    for fam, cs in by.items(): out += cs[::st]
+    for fam, cs in by.items(): out += cs[::(1 if fam in ('EQFORMS', 'MIX') else st)]
   for kind, prog in named_family():
     out.append(Case('NAMED', prog, ['T'], dbs=semcheck.dbs_ab(2), fact_dbs=semcheck.FACT_DBS_AB[:1], info=dict(named=True)))
   return out
